@@ -67,6 +67,7 @@ RULES = {
     "NAMECONF": simplify.rule_nameconf,
     "DELGUARD": simplify.rule_delguard,
     "MODGUARD": simplify.rule_modguard,
+    "DIVACCOUNT": simplify.rule_divaccount,
     "CFGMOD": provenance.rule_cfgmod,
     "EQVGATE": provenance.rule_eqvgate,
     "CFGSHAPE": provenance.rule_cfgshape,
